@@ -43,6 +43,8 @@ from harness.runs_common import (BoundedCheck, OUTCOMES, Interp, run2, flag_args
                                  T, NOT, AND, step, scenario, outline, rule, feature, render,
                                  short)
 
+from harness import runlib as rl
+
 REPO = os.environ.get("VERIF_REPO", "/repo")
 
 
@@ -157,6 +159,37 @@ def run_one_scenario(tier, rng):
             for stop in (False, True):
                 case = {"trees": one_scenario_tree(shape, seq, False), "stop": stop, "dry_run": False, "cafs": True}
                 yield eval_verdict(case)
+
+
+# -- nested steps: a step that runs sub-steps through context.execute_steps() ------------------------------------------
+SUB_OUTCOMES = ("pass", "fail", "error", "undefined")
+
+
+def eval_nested(case):
+    """case: sub (outcomes of the sub-steps), after (outcome of the calling step itself), stop."""
+    sub, after, stop = case["sub"], case.get("after", "pass"), bool(case.get("stop"))
+    trees = [feature("F", [scenario("S", [step("outer", after), step("later", "pass")]),
+                           scenario("T", [step("t0", "pass")])])]
+    text = u"\n".join(u"Given " + rl.step_text(step("n%d" % k, o)) for k, o in enumerate(sub))
+
+    def on_step(context, sid, outcome):
+        if sid == "outer":
+            context.execute_steps(text)
+    # spec: the calling step fails as soon as one sub-step does not pass; otherwise it behaves like `after`
+    expected = any(o != "pass" for o in sub) or after != "pass"
+    obs = run2(trees, flag_args(stop, False), on_step=on_step)
+    if obs.exception is not None:
+        return case, False, "exception escaped run(): %r" % (obs.exception,)
+    ok = bool(obs.failed) == bool(expected)
+    return case, ok, "run() -> %r, something went wrong (spec) = %r; sub-steps %r" % (obs.failed, expected, sub)
+
+
+def run_nested(tier, rng):
+    for n in (1, 2, 3):
+        for sub in itertools.product(SUB_OUTCOMES, repeat=n):
+            for after in (("pass",) if tier == "quick" and n == 3 else ("pass", "fail")):
+                for stop in (False, True):
+                    yield eval_nested({"sub": list(sub), "after": after, "stop": stop})
 
 
 # two outcome slots A (tagged @x) and B (tagged @y)
@@ -419,6 +452,15 @@ _TREES = ("two outcome slots A (@x) and B (@y) in 5 layouts (sibling scenarios, 
           "rules, two tagged examples blocks of one outline (single non-undefined outcomes only)); exhaustive: ")
 
 CHECKS = [
+    BoundedCheck(
+        "verdict-nested-steps",
+        bound={"quick": "a step calling context.execute_steps() with all 84 sub-step sequences of length 1..3 over {pass, fail, "
+                        "error, undefined} x the calling step itself passing/failing afterwards (length 3: passing only) x "
+                        "{no flag, --stop}",
+               "thorough": "same with the calling step passing/failing for every length"},
+        run=run_nested, replay=eval_nested,
+        contract="bool(ModelRunner.run()) == (some sub-step does not pass or the calling step fails): a failing sub-step fails "
+                 "the calling step whatever runs after it"),
     BoundedCheck(
         "verdict-one-scenario",
         bound={"quick": _ONE + "plain x all 399 sequences of length 1..3 x {none, --stop, --dry-run, @wip}; "
